@@ -129,8 +129,9 @@ def main():
             for d in r['frontend_errors'][:5]:
                 log(d['rendered'] or d['message'])
             undecided(f'unit {un}: Verus front-end error (unsupported construct / type error): extraction or model out of date')
-        if r['undecided']:
-            undecided(f'unit {un}: resource limit exceeded in {[d["owner"] for d in r["undecided"]]}')
+        real_undecided = [d for d in r['undecided'] if d['owner_kind'] != 'vacuity']
+        if real_undecided:
+            undecided(f'unit {un}: resource limit exceeded in {[d["owner"] for d in real_undecided]}')
         forbidden, trusted = scan_forbidden(u)
         if forbidden:
             undecided(f'unit {un}: forbidden construct inside a verified function: {forbidden}')
@@ -139,6 +140,8 @@ def main():
         smt_ms += r['smt_ms'] or 0
         # vacuity guard (ii)
         failing_twins = {d['owner'] for d in r['diags'] if d['owner_kind'] == 'vacuity' and 'VACUITY-GUARD' in d['clause']}
+        # a twin on which the solver exhausted its (small) resource limit did not prove `false` either
+        failing_twins |= {d['owner'] for d in r['undecided'] if d['owner_kind'] == 'vacuity'}
         for s in u.segments:
             if s['kind'] == 'vacuity' and s['name'] not in failing_twins:
                 vac_missing.append(f'{un}:{s["name"]}')
